@@ -24,6 +24,7 @@ import (
 
 	"verifh/mc"
 	"verifh/sched/c10"
+	"verifh/sched/c18"
 )
 
 type jobResult struct {
@@ -186,6 +187,80 @@ func c10Replay(raw json.RawMessage) ([]string, []string) {
 	return viol, append(verifrt.Describe(r), r.Log...)
 }
 
+// ---- C18 ------------------------------------------------------------------------------------------
+
+func c18Jobs(thorough bool) []json.RawMessage {
+	ms, sec := time.Millisecond, time.Second
+	long, short := 10*sec, 1*sec
+	cl := func(shape string, hd, gap time.Duration) c18.Client {
+		return c18.Client{Shape: shape, HandlerDelay: hd, Gap: gap}
+	}
+	scs := []c18.Scenario{
+		{Name: "busy-fast-handler", Clients: []c18.Client{cl(c18.Busy, 0, 0)}, ExitWait: long, Hooks: []time.Duration{0}},
+		{Name: "busy-500ms-handler", Clients: []c18.Client{cl(c18.Busy, 500*ms, 0)}, ExitWait: long, Hooks: []time.Duration{0}},
+		{Name: "busy-handler-outlasts-exitwait", Clients: []c18.Client{cl(c18.Busy, 2*sec, 0)}, ExitWait: short, Hooks: nil, ShutdownDelay: 100 * ms},
+		{Name: "idle-keepalive-second-request", Clients: []c18.Client{cl(c18.Idle, 0, 300*ms)}, ExitWait: long, ShutdownDelay: 100 * ms},
+		{Name: "idle-keepalive-until-close", Clients: []c18.Client{cl(c18.IdleEnd, 0, 3*sec)}, ExitWait: short, ShutdownDelay: 100 * ms},
+		{Name: "mid-request", Clients: []c18.Client{cl(c18.MidReq, 0, 300*ms)}, ExitWait: long, ShutdownDelay: 100 * ms},
+		{Name: "busy+idle", Clients: []c18.Client{cl(c18.Busy, 500*ms, 0), cl(c18.Idle, 0, 300*ms)}, ExitWait: long, Hooks: []time.Duration{0}},
+		{Name: "two-shutdown-callers", Clients: []c18.Client{cl(c18.Busy, 500*ms, 0)}, ExitWait: long, Shutdowns: 2},
+		{Name: "shutdown-twice", Clients: []c18.Client{cl(c18.Busy, 0, 0)}, ExitWait: short, Again: true},
+		{Name: "shutdown-before-run", BeforeRun: true, ExitWait: short},
+		{Name: "hooks-fast-slow-beyond", Clients: []c18.Client{cl(c18.Busy, 0, 0)}, ExitWait: short, Hooks: []time.Duration{0, 500 * ms, 20 * sec}},
+		{Name: "late-connector", Clients: []c18.Client{cl(c18.Busy, 0, 0), cl(c18.Late, 0, 2*sec)}, ExitWait: short},
+		{Name: "no-clients", ExitWait: long, Hooks: []time.Duration{0, 0}},
+	}
+	var out []json.RawMessage
+	for _, sc := range scs {
+		bound := 2
+		if thorough {
+			bound = 3
+		}
+		b, _ := json.Marshal(c18.Job{Sc: sc, Bound: bound})
+		out = append(out, b)
+	}
+	return out
+}
+
+func c18Explore(raw json.RawMessage, deadline time.Time) jobResult {
+	var job c18.Job
+	json.Unmarshal(raw, &job) //nolint:errcheck
+	res := jobResult{Job: raw}
+	seen := map[string]bool{}
+	var cur *c18.World
+	st := verifrt.Explore(job.Bound, c18.Opts, func() (func(), func()) {
+		cur = c18.NewWorld(job)
+		return cur.Body(), cur.OnPoint
+	}, func(r *verifrt.Result, dev int) bool {
+		viol := cur.Violations(r)
+		if r.Diverged != "" {
+			res.Harness = "nondeterministic replay: " + r.Diverged
+			return false
+		}
+		if r.Hung {
+			res.Harness = "execution hung outside the scheduler: " + strings.Join(r.Log, "\n")
+			return false
+		}
+		for _, v := range viol {
+			k := job.Sc.Name + "|" + slug(v)
+			if !seen[k] && len(res.Violations) < 6 {
+				seen[k] = true
+				res.Violations = append(res.Violations, violation{Key: k, Msg: v, Schedule: r.Choices()})
+			}
+		}
+		return true
+	}, func() bool { return time.Now().After(deadline) })
+	res.Executions, res.Points, res.Preemptive, res.Horizons, res.MaxDepth, res.Completed, res.ByDev = st.Executions, st.Points, st.Preemptive, st.Horizons, st.MaxDepth, st.Completed, st.ByDeviations
+	return res
+}
+
+func c18Replay(raw json.RawMessage) ([]string, []string) {
+	var job c18.Job
+	json.Unmarshal(raw, &job) //nolint:errcheck
+	r, viol := c18.RunOne(job, job.Schedule, true)
+	return viol, append(verifrt.Describe(r), r.Log...)
+}
+
 var families = map[string]*family{}
 
 func init() {
@@ -195,6 +270,13 @@ func init() {
 			Assumptions: []string{"scheduling points are the synchronisation, channel, timer and connection I/O operations of client.go (rewritten mechanically by vinstr); unsynchronised data accesses between them are not interleaved", "time is virtual: timeliness is judged on the logical clock with zero slack", "finalizer-driven connection release (ResponseBodyStream) is not explored"},
 		},
 		jobs: c10Jobs, explore: c10Explore, replay: c10Replay,
+	}
+	families["C18"] = &family{
+		check: &mc.Check{ID: "C18", Level: "model_checking",
+			Rule:        "scenarios (client shapes {busy with a 0/500ms/2s handler, idle keep-alive with a later second request, idle until close, mid-request with the body completed later, late connector} x ExitWaitTimeout short/long x shutdown hooks {fast, slow, beyond the deadline} x one / two concurrent / repeated Shutdown callers / Shutdown before Run) x every schedule of the instrumented Engine.Run, Engine.Shutdown and standard transport with <= bound deviations (preemptions, early timer fires, select alternatives) in virtual time; non-trivial = executions with at least one deviation",
+			Assumptions: []string{"standard transport only (netpoll runs on OS threads the scheduler cannot own)", "scheduling points are the synchronisation, channel, timer, listener and connection I/O operations of engine.go / transport.go (rewritten mechanically by vinstr)", "timeliness is judged on the virtual clock, only while it has not been advanced past a runnable thread"},
+		},
+		jobs: c18Jobs, explore: c18Explore, replay: c18Replay,
 	}
 }
 
